@@ -10,7 +10,11 @@ C09 — Joint fitting is order-invariant and fits each interval to exactly its o
 
 Clause → theorem
   interval k is fitted to exactly the observations whose conditioning value is in interval k,
-  in input order                                                   split_data_exact
+  in input order                                                   split_data_exact (given the mask equation),
+                                                                   width_split_data_exact, number_split_data_exact
+                                                                   (mask equation discharged for what the Width /
+                                                                   Number slicers return; predicate k is `inIv` on
+                                                                   interval k's boundaries: C10.ivPreds_get)
   row order does not matter, Width / Number slicers (all options):  widthSlice_perm_invariant, numberSlice_perm_invariant
   for permuted rows the same error or the same intervals            (composed from listMax_perm, listMin_perm,
   (references, boundaries, which survive min_n_points) and each     width_as_templates, number_as_templates,
@@ -24,9 +28,18 @@ Clause → theorem
   max (Number) and the options only. Float `<` on NaN-free data is taken to be a linear order.
   PointsPerInterval with ties across a chunk boundary: invariance
   is impossible (two valid sort orders, different intervals)       ppi_ties_not_invariant
-  dependence functions get (reference, estimate) pairs             dep_fit_inputs
+  dependence functions get (reference, estimate) pairs             OBSERVED at run time (recording doubles).
+                                                                   dep_fit_inputs_def only unfolds `condFitInputs`, a
+                                                                   definition that NO driver op runs. Which data
+                                                                   every `_fit` of a dependence function uses is
+                                                                   proven in C14 on its executed model
+                                                                   (`VirVerif.C14.fit_uses_stored_data`).
   each dimension gets its own (method, weights) or the default     fitPlan_per_dim, fitPlan_length,
                                                                    fitPlan_default_when_absent, missing_method_reported
+  NOT here: that the parsed (method, weights) of dimension i are the ones actually HANDED to dimension i's fit
+  (only the parsing `_check_and_fill_fit_desc` is modelled; the application is a run-time oracle over recording
+  doubles). "First fit and re-fit" of dependence functions (stale data, start values): C14's round theorems
+  (`VirVerif.C14.round_complete_all_current`, `start_values_fixed`).
   NOT here: `DependenceFunction(weights=…, constraints=…)` — how a dependence function is fitted to
   its pairs is C14; C09 proves which pairs it receives. Refusal of a wrong-length list is part of
   the model (`fillFitDesc`), compared with the code at run time. PointsPerInterval WITHOUT ties
@@ -37,6 +50,7 @@ Clause → theorem
   least squares are permutation-invariant only up to rounding) — compared with rtol 1e-6.
 -/
 import VirVerif.Model.FitPipeline
+import VirVerif.Properties.C10
 import Mathlib.Order.Basic
 import Mathlib.Order.Defs.LinearOrder
 import Mathlib.Data.List.Basic
@@ -240,8 +254,10 @@ theorem ppi_ties_not_invariant :
         = some [[10, 30], [20, 40]] := by
   decide
 
-/-- **dependence functions are fitted to the (reference, estimate) pairs** -/
-theorem dep_fit_inputs (est : List α → β) (refs : List α) (intervals : List (List α)) :
+/-- unfolding of the definition `condFitInputs` (Model/FitPipeline.lean), which is a description of
+`ConditionalDistribution.fit` that no driver op executes: the clause "dependence functions are fitted
+to the (reference, estimate) pairs" is OBSERVED by the harness, not proven here. -/
+theorem dep_fit_inputs_def (est : List α → β) (refs : List α) (intervals : List (List α)) :
     (condFitInputs est refs intervals).2 = refs.zip (intervals.map est) ∧
     (condFitInputs est refs intervals).1 = intervals.map est := ⟨rfl, rfl⟩
 
@@ -540,6 +556,38 @@ theorem sameSplit_estimates (r r' : Except SliceErr (List (Interval α))) (col c
   | nil => rfl
   | cons hp _ ih => simp [hest _ _ hp, ih]
 
+/-! ### `split_data_exact` with its mask hypothesis discharged for the slicers' own intervals -/
+
+theorem splitData_of_masks (ivs : List (Interval α)) (preds : List (α → Bool)) (rows : List ρ)
+    (cond dist : ρ → α) (h : ivs.map (·.mask) = preds.map fun p => (rows.map cond).map p) :
+    splitData ivs (rows.map dist) = preds.map fun p => (rows.filter fun r => p (cond r)).map dist := by
+  unfold splitData
+  rw [show (fun iv : Interval α => maskSelect iv.mask (rows.map dist)) =
+    (fun m => maskSelect m (rows.map dist)) ∘ (·.mask) from rfl, ← List.map_map, h, List.map_map]
+  apply List.map_congr_left
+  intro p _
+  simp only [Function.comp, List.map_map]
+  exact maskSelect_map rows (p ∘ cond) dist
+
+/-- **each Width interval is fitted to exactly its own data**: the data handed to the template for
+interval `k` of `WidthOfIntervalSlicer._slice` are the fitted-dimension values of exactly the rows whose
+conditioning value satisfies the `k`-th interval predicate (`inIv` on that interval's boundaries,
+`C10.ivPreds_get`), in input order. -/
+theorem width_split_data_exact [LinearOrder α] [Add α] [Sub α] (ro : Bool) (ref : RefKind) (w hw : α) (starts : List α)
+    (hne : starts ≠ []) (rows : List ρ) (cond dist : ρ → α) :
+    splitData (widthIntervalsOfStarts ro ref w hw starts (rows.map cond)) (rows.map dist) =
+      (ivPreds ro (!ro) (!ro) (edgePairs (starts ++ [starts.getLast hne + w]))).map
+        fun p => (rows.filter fun r => p (cond r)).map dist :=
+  splitData_of_masks _ _ rows cond dist (C10.widthIntervals_spec ro ref w hw starts (rows.map cond) hne).2
+
+/-- the same for `NumberOfIntervalsSlicer._slice` -/
+theorem number_split_data_exact [LinearOrder α] [Add α] (im : Bool) (ref : RefKind) (w hw upper : α) (starts : List α)
+    (hne : starts ≠ []) (rows : List ρ) (cond dist : ρ → α) :
+    splitData (numberIntervalsOfStarts im ref w hw upper starts (rows.map cond)) (rows.map dist) =
+      (ivPreds true false im (edgePairs (starts ++ [upper]))).map
+        fun p => (rows.filter fun r => p (cond r)).map dist :=
+  splitData_of_masks _ _ rows cond dist (C10.numberIntervals_spec im ref w hw upper starts (rows.map cond) hne).2
+
 /-! the executable float models are instances of `widthSliceG` / `numberSliceG` -/
 
 theorem widthSliceF_eq_G (w : Float) (ro : Bool) (ref : RefKind) (vmin vmax : Option Float)
@@ -564,6 +612,8 @@ theorem numberSliceF_eq_G (k : Nat) (im : Bool) (ref : RefKind) (range : Option 
 example : fillFitDesc 3 (some [.none, .dict (some "wlsq") (some (some "quadratic")), .dict (some "mle") none])
     = .ok [defaultFitDesc, ⟨"wlsq", some "quadratic"⟩, ⟨"mle", none⟩] := by decide
 example : maskSelect [true, false, true] [(1 : Int), 2, 3] = [1, 3] := by decide
+example : splitData (widthIntervalsOfStarts true .center (1 : Int) 0 [0, 1] [0, 1, 1]) [10, 20, 30]
+    = [[10], [20, 30]] := by decide
 -- widthSlice_perm_invariant on concrete rows (conditioning value, fitted value) and a permutation of them
 example :
     (widthSliceG (fun _ : Int => [0, 2, 4]) true .center 2 1 none 1 1 ([(1, 10), (3, 30), (5, 50), (4, 40)].map Prod.fst)).toOption.map
